@@ -771,7 +771,10 @@ def estimate_symbolic_duration(
     if qdur == 0:
         return {}
     i = find_nearest(DURS, qdur)
-    if np.abs(qdur - DURS[i]) < eps:
+    # (the tolerance is for numerical imprecision only: it is measured in
+    # divisions, so that with many divisions per quarter a neighbouring integer
+    # duration is not mistaken for a notated value)
+    if np.abs(qdur - DURS[i]) * max(div, 1) < eps:
         return SYM_DURS[i].copy()
     else:
         # Note when the duration is not found, the we are left with two solutions:
@@ -779,7 +782,7 @@ def estimate_symbolic_duration(
         # 2. The duration is a composite duration
         # For composite duration. We can use the following approach:
         j = find_nearest(COMPOSITE_DURS, qdur)
-        if np.abs(qdur - COMPOSITE_DURS[j]) < eps:
+        if np.abs(qdur - COMPOSITE_DURS[j]) * max(div, 1) < eps:
             if return_com_durations:
                 return copy.copy(SYM_COMPOSITE_DURS[j])
             else:
@@ -800,11 +803,15 @@ def estimate_symbolic_duration(
             # NOTE: Guess tuplets (Naive) it doesn't cover composite durations from tied notes.
             type = SYM_STRAIGHT_DURS[i + 1]["type"]
             normal_notes = 2
-            while (normal_notes * STRAIGHT_DURS[i + 1] / qdur) % 1 > eps:
+            # (the ratio is a float: it may come out just below or just above
+            # the integer it stands for)
+            ratio = normal_notes * STRAIGHT_DURS[i + 1] / qdur
+            while min(ratio % 1, 1 - ratio % 1) > eps * 1e-3:
                 normal_notes += 1
+                ratio = normal_notes * STRAIGHT_DURS[i + 1] / qdur
             return {
                 "type": type,
-                "actual_notes": math.ceil(normal_notes * STRAIGHT_DURS[i + 1] / qdur),
+                "actual_notes": int(np.round(ratio)),
                 "normal_notes": normal_notes,
             }
 
